@@ -419,6 +419,12 @@ static void applyOpt(TypedArgBase* arg, SlotBase* slot, const string& opt, Handl
       else if (v == "lower") arg->addFormat(lowercase());
       else if (v.rfind("anycase:", 0) == 0) arg->addFormat(anycase(unhexf(v.substr(8))));
    }
+   else if (k == "fmtpos")
+   {
+      auto p = split(v, ':');
+      if (p[1] == "upper") arg->addFormatPos(atoi(p[0].c_str()), uppercase());
+      else arg->addFormatPos(atoi(p[0].c_str()), lowercase());
+   }
    else if (k == "sep") arg->setListSep((char)atoi(v.c_str()));
    else if (k == "clear") arg->setClearBeforeAssign();
    else if (k == "sort") arg->setSortData();
